@@ -930,3 +930,19 @@ Theorem ixfr_outcome_dichotomy : forall fin z0 ser ws rest,
      XfrSections.end_serial ser secs = v_serial fin /\ v_soa b = v_soa fin /\ XfrSections.apply_secs z0 secs = Some z1).
 Proof. exact XfrInversion.ixfr_outcome_dichotomy. Qed.
 Print Assumptions ixfr_outcome_dichotomy.
+
+(* every way an IXFR request can complete over TCP: up to date / difference sequences / the whole zone *)
+Theorem ixfr_done_classification : forall fin z0 ser ws rest z' n,
+  XfrZone.quiet z0 -> ttl_ok (v_ttl fin) ->
+  chunking tIXFR (soa_rr fin :: rest) ws -> Forall XfrInversion.wire_rec rest ->
+  inbound_xfr z0 tIXFR (Some ser) false ws = (Done z', n) ->
+  (v_serial fin = ser /\ z' = z0) \/
+  (v_serial fin <> ser /\ exists secs z1 b extra,
+     rest = XfrSections.secs_stream secs ++ soa_rr b :: extra /\ secs <> [] /\ XfrSections.skel_ok ser fin secs /\
+     XfrSections.end_serial ser secs = v_serial fin /\ v_soa b = v_soa fin /\ XfrSections.apply_secs z0 secs = Some z1 /\
+     z' = zput soakey (v_ttl b, [v_soa b]) z1) \/
+  (v_serial fin <> ser /\ exists B b extra,
+     rest = B ++ soa_rr b :: extra /\ B <> [] /\ Forall XfrGlue.okrec B /\ v_soa b = v_soa fin /\
+     z' = zput soakey (v_ttl b, [v_soa b]) (XfrDiff.adds [] (XfrGlue.erase B))).
+Proof. exact XfrInversion.ixfr_done_classification. Qed.
+Print Assumptions ixfr_done_classification.
